@@ -39,7 +39,7 @@ func Parse(regex string) (*AST, error) {
 	p := parser.New(m)
 
 	out, ok := p.Parse(regex)
-	if !ok {
+	if !ok || out.Remaining != nil {
 		return nil, fmt.Errorf("invalid regular expression: %s", regex)
 	}
 
